@@ -56,7 +56,7 @@ for _v in DV.TREEINFO_VERSIONS:
     CLASS_FLOORS["accepted-treeinfo-" + _v] = 5
 CLASS_FLOORS.update({"fixtures-treeinfo": 60, "fixtures-discinfo": 50, "fixtures-images": 3, "fixtures-composeinfo": 2,
                      "legacy-prefix-children": 5, "legacy-product-section": 5, "images-src-moved": 5, "rpms-0.3-src": 5,
-                     "treeinfo-0.3-src-tree": 3, "treeinfo-0.0-legacy-image-section": 3, "treeinfo-0.0-blank-packagedir-with-repository": 3})
+                     "treeinfo-0.3-src-tree": 3, "treeinfo-0.0-legacy-image-section": 3, "treeinfo-0.0-blank-packagedir-with-repository": 3, "treeinfo-0.0-addons-in-id-named-sections": 10})
 
 
 def plan(tier):
@@ -274,8 +274,56 @@ def gen_cases(ctx, pms, rng, per_version):
                 ctx.count("treeinfo-0.0-blank-packagedir-with-repository")
             acc = upgrade_cycle(ctx, pms, "treeinfo", textin, E, case, version)
             ctx.case_done(case, nontrivial=acc)
+            if version == "0.0":
+                check_legacy_addons(ctx, pms, rng)
             if i == 0 and version == "0.0":
                 ctx.sample({"fmt": "treeinfo", "version": version, "document": textin})
+
+
+def legacy_addon_document(rng):
+    """Pre-productmd tree of the RHEL 6 kind: one variant named in [general], its add-ons listed under 'addons' and described
+    in sections named after their ID ([addon-<ID>]) or their UID ([addon-<UID>]), each with a display name of its own.
+    Returns (text, {uid: (id, type, name)})."""
+    top = rng.choice(["Server", "Workstation", "ComputeNode", "Client"])
+    pool = [("HighAvailability", "High Availability"), ("ResilientStorage", "Resilient Storage"), ("LoadBalancer", "Load Balancer"),
+            ("ScalableFileSystem", "Scalable Filesystem Support"), ("optional", "Optional Packages"), ("X1", "x one")]
+    addons = rng.sample(pool, rng.randint(1, 4))
+    out = ["[general]", "family = Spacewalk", "version = %d.%d" % (rng.randint(1, 9), rng.randint(0, 9)), "arch = x86_64",
+           "timestamp = %d.%02d" % (rng.randint(1, 2 ** 31), rng.randint(0, 99)), "variant = " + top, "packagedir = Packages",
+           "repository = " + top, "", "[variant-%s]" % top, "addons = " + ",".join(a for a, _ in addons),
+           "identity = %s/%s.pem" % (top, top), "repository = %s/repodata" % top, ""]
+    if rng.random() < 0.5:
+        out.insert(11, "name = %s" % rng.choice([top, "Red Hat " + top, top + " edition"]))
+    name_top = [l.split("=", 1)[1].strip() for l in out if l.startswith("name = ")]
+    exp = {top: (top, "variant", name_top[0] if name_top else top)}
+    for aid, aname in addons:
+        by_uid = rng.random() < 0.4
+        out += ["[addon-%s]" % (("%s-%s" % (top, aid)) if by_uid else aid), "identity = %s/%s.pem" % (aid, aid)]
+        named = rng.random() < 0.8
+        if named:
+            out.append("name = " + aname)
+        out += ["repository = %s/repodata" % aid, ""]
+        exp["%s-%s" % (top, aid)] = (aid, "addon", aname if named else aid)
+    return "\n".join(out) + "\n", exp
+
+
+def check_legacy_addons(ctx, pms, rng):
+    textin, exp = legacy_addon_document(rng)
+    case = {"fmt": "treeinfo", "version": "0.0", "document": textin}
+    ctx.count("treeinfo-0.0-addons-in-id-named-sections")
+    try:
+        ti = pms["treeinfo"].TreeInfo()
+        ti.loads(textin)
+        got = dict((v.uid, (v.id, v.type, v.name)) for v in ti.variants.get_variants(recursive=True))
+    except Exception as e:
+        got = "raised %s: %s" % (type(e).__name__, str(e)[:150])
+    bad = got != exp
+    ctx.monitor("facts-preserved", fired=bad)
+    if bad:
+        ctx.violation("facts-preserved", "the converted object carries the same facts as the old document under the documented mapping "
+                      "(a pre-productmd variant and its add-ons: id, type and display name)", case, observed=got, expected=exp)
+    acc = upgrade_cycle(ctx, pms, "treeinfo", textin, None, case, "0.0")
+    ctx.case_done(case, nontrivial=acc)
 
 
 def iter_obs_nodes(nodes):
